@@ -222,9 +222,11 @@ def _decode_tla_string(s):
     return bytes(s, "utf-8").decode("unicode_escape") if "\\" in s else s
 
 
-def tlc(module_path, cfg_path, name, env=None, workers=16, coverage=True, cont=True,
+def tlc(module_path, cfg_path, name, env=None, workers=None, coverage=True, cont=True,
         timeout=1800, simulate=None, heap="8g", deadlock=False, dfs=False, seed_arg=None, extra=None):
     """Run TLC; parse summary, coverage and `VP|...` print lines."""
+    if workers is None:
+        workers = int(os.environ.get("VERIF_WORKERS", "16"))
     meta = os.path.join(WORK, "tlc-" + name)
     shutil.rmtree(meta, ignore_errors=True)
     os.makedirs(meta, exist_ok=True)
